@@ -21,15 +21,17 @@ CODECS = impl.BINARY
 ASSUMPTIONS = [
     'Encodings come from the same program/value space as C01 (boundary values, deviation-bounded products).',
     'For encodings longer than 256 bytes only the cut points listed in the docstring are taken.',
-    'Step budget: c0=20000 + 4000 events per prefix byte (a decoder that spins is reported as budget-steps).',
+    'Step budget: c0=20000 + 4000 events per prefix byte + 60 per element of the encoded value (a decoder that spins is reported as budget-steps).',
 ]
 C0, C1 = 20000, 4000
 
 
 def bounds(tier):
-    return {'tier': tier, 'program_space': 'standard_units(%s)' % tier, 'codecs': list(CODECS),
+    return {'tier': tier, 'program_space': 'L0 full; L0c, L1(W2,K1 quick / W3,K2 thorough), L2, families under '
+                                           + ('EXPLICIT' if tier == 'quick' else 'all 5 environments'),
+            'codecs': list(CODECS),
             'cuts': 'all k for len<=256; else k<=64, |k-16384*i|<=4, |k-65536|<=4, k>=len-8',
-            'values_per_type_cap': VALUES_CAP[tier]}
+            'values_per_type_cap': 'L0 16/40, L0c 4/10, L1 4/8, L2 4/8, families 10/20 (quick/thorough)'}
 
 
 VALUES_CAP = {'quick': 12, 'thorough': 40}
@@ -41,10 +43,28 @@ def setup(tier):
 
 
 def units(tier):
-    us = space.standard_units(tier)
-    for u in us:
-        u.extra['vcap'] = VALUES_CAP[tier]
-    return us
+    """Program space: all of L0; L0c, L1, L2 and the families under the EXPLICIT
+    environment (quick) or all environments (thorough).  The number of values per
+    type is capped per layer (first and last values of the boundary domain)."""
+    thorough = tier == 'thorough'
+    envs = space.ENVS_ALL if thorough else (('EXPLICIT', False),)
+    out = []
+    for u in space.l0_units(thorough):
+        u.extra['vcap'] = 40 if thorough else 16
+        out.append(u)
+    for u in space.l0c_units(thorough, envs=envs):
+        u.extra['vcap'] = 10 if thorough else 4
+        out.append(u)
+    for u in space.l1_units(3 if thorough else 2, 2 if thorough else 1, envs=envs):
+        u.extra['vcap'] = 8 if thorough else 4
+        out.append(u)
+    for u in space.l2_units(thorough, envs=envs):
+        u.extra['vcap'] = 8 if thorough else 4
+        out.append(u)
+    for u in space.family_units(envs=envs):
+        u.extra['vcap'] = 20 if thorough else 10
+        out.append(u)
+    return out
 
 
 def cuts(n):
@@ -59,7 +79,7 @@ def cuts(n):
     return sorted(k for k in ks if 0 <= k < n)
 
 
-def check_prefixes(ct, enc, res=None):
+def check_prefixes(ct, enc, res=None, vsize=0):
     """Returns list of (k, kind, detail) for prefixes that are not rejected properly."""
     out = []
     DecodeError = impl.asn1tools.DecodeError
@@ -68,7 +88,7 @@ def check_prefixes(ct, enc, res=None):
         if res is not None:
             res.count('evaluations')
         try:
-            dec, _ = budget.run(C0 + C1 * (k + 1), ct.decode, pre)
+            dec, _ = budget.run(C0 + C1 * (k + 1) + 60 * vsize, ct.decode, pre)
         except DecodeError:
             continue
         except budget.BudgetExceeded:
@@ -78,6 +98,16 @@ def check_prefixes(ct, enc, res=None):
         else:
             out.append((k, 'value-instead-of-error', type(dec).__name__))
     return out
+
+
+def _sizeof(v):
+    if isinstance(v, (bytes, bytearray, str)):
+        return len(v)
+    if isinstance(v, (list, tuple)):
+        return 1 + sum(_sizeof(x) for x in v)
+    if isinstance(v, dict):
+        return 1 + sum(_sizeof(x) for x in v.values())
+    return 1
 
 
 def select_values(values, cap):
@@ -122,7 +152,7 @@ def work(unit):
                 if len(res.samples) < 2 and len(enc) > 2:
                     res.samples.append({'type': render_type(term, unit.env)[:160], 'codec': codec,
                                         'encoding': enc.hex()[:80], 'prefixes': len(list(cuts(len(enc))))})
-                bad = check_prefixes(ct, enc, res)
+                bad = check_prefixes(ct, enc, res, _sizeof(v))
                 res.outcome('all-prefixes-rejected' if not bad else 'some-prefix-accepted')
                 for k, kind, detail in bad[:3]:
                     # signature by root cause: codec + what happened; the type is found by shrinking
@@ -157,7 +187,7 @@ def run_case(failure, unit, name, term, v):
         enc = bytes(ct.encode(v))
     except Exception:
         return None
-    bad = [b for b in check_prefixes(ct, enc) if b[1] == failure['kind']]
+    bad = [b for b in check_prefixes(ct, enc, None, _sizeof(v)) if b[1] == failure['kind']]
     want = failure.get('detail')
     for k, kind, detail in bad:
         if kind == 'value-instead-of-error' or detail == want:
